@@ -735,8 +735,56 @@ def ground_parser_defaults():
     return out
 
 
+def ground_csv_family():
+    """parse_csv and the CSV-based option values on exhaustive small families (evaluated, not symbolic): every string over
+    {a, b, ',', ' '} up to 6 characters; every list over {0, 1, 7} up to 4 items (repetitions and order are part of the value);
+    array-length maps whose size lists repeat items"""
+    import itertools
+
+    out = []
+    bad = []
+    n = 0
+    for k in range(0, 7):
+        for t in itertools.product("ab, ", repeat=k):
+            s = "".join(t)
+            n += 1
+            want = [x.strip() for x in s.split(",") if x.strip()]
+            try:
+                got = list(hcfg.parse_csv(s))
+            except Exception as e:  # noqa
+                got = f"{type(e).__name__}: {e}"
+            if got != want and len(bad) < 3:
+                bad.append((s, got, want))
+    out.append((f"parse_csv yields the non-empty stripped items in order, repetitions included, on all {n} strings of the family", not bad, f"first disagreement (input, got, expected): {str(bad[:1])[:300]}"))
+    bad, n = [], 0
+    for k in range(1, 5):
+        for t in itertools.product((0, 1, 7), repeat=k):
+            v = list(t)
+            n += 1
+            try:
+                back = hcfg.ParseCSVInt.parse(hcfg.ParseCSVInt.unparse(v))
+            except Exception as e:  # noqa
+                back = f"{type(e).__name__}: {e}"
+            if back != v and len(bad) < 3:
+                bad.append((v, back))
+    out.append((f"ParseCSVInt: parse(unparse(v)) == v on all {n} lists (a list value keeps order and repetitions)", not bad, f"first disagreement (value, after the round trip): {str(bad[:1])[:300]}"))
+    bad, n = [], 0
+    for t in itertools.product((0, 1, 7), repeat=3):
+        for u in itertools.product((2, 2, 3), repeat=2):
+            v = {"x": list(t), "data": list(u)}
+            n += 1
+            try:
+                back = hcfg.ParseArrayLengths.parse(hcfg.ParseArrayLengths.unparse(v))
+            except Exception as e:  # noqa
+                back = f"{type(e).__name__}: {e}"
+            if back != v and len(bad) < 3:
+                bad.append((v, back))
+    out.append((f"ParseArrayLengths: parse(unparse(v)) == v on all {n} maps whose size lists repeat items", not bad, f"first disagreement: {str(bad[:1])[:300]}"))
+    return out
+
+
 def grounds():
-    return [Ground(f"{PROP}/config.Config.resolved_solver_command#stacks", ground_solver_stacks, sources=("halmos.config:Config.resolved_solver_command", "halmos.config:Config.__getattribute__")), Ground(f"{PROP}/config.arg_parser#not-given-is-None", ground_parser_defaults, sources=("halmos.config:_create_arg_parser",))]
+    return [Ground(f"{PROP}/config.parse_csv#family", ground_csv_family, sources=("halmos.config:parse_csv", "halmos.config:ParseCSVInt.parse", "halmos.config:ParseCSVInt.unparse", "halmos.config:ParseArrayLengths.parse", "halmos.config:ParseArrayLengths.unparse")), Ground(f"{PROP}/config.Config.resolved_solver_command#stacks", ground_solver_stacks, sources=("halmos.config:Config.resolved_solver_command", "halmos.config:Config.__getattribute__")), Ground(f"{PROP}/config.arg_parser#not-given-is-None", ground_parser_defaults, sources=("halmos.config:_create_arg_parser",))]
 
 
 def bounded():
